@@ -1,16 +1,16 @@
 #!/bin/sh
-# tools/seedcheck.sh <Cnn> [srcdir] : verify one independently produced breaking change and run the checks against it.
+# tools/seedcheck.sh <Cnn> [srcdir [destname]] : verify one independently produced breaking change and run the checks against it.
 #  srcdir (default /root/work/seed/out/<Cnn>) holds patch.diff, meta.json and the demonstration file(s).
 #  1. fresh detached worktree of /repo HEAD under /tmp/seedcheck
 #  2. demonstration on the unchanged tree must pass
 #  3. with the patch: builds, demonstration fails, existing tests of the touched packages pass
 #  4. the property's check (and all others) are run against the patched tree (-repo), never building or running it
 #  5. the result is stored under /verif/seeded/<Cnn>/ ; the worktree is removed
-id="${1:?property id}"; src="${2:-/root/work/seed/out/$id}"
+id="${1:?property id}"; src="${2:-/root/work/seed/out/$id}"; dest="${3:-$id}"
 here="$(cd "$(dirname "$0")/.." && pwd)"
 . "$here/env.sh"
 [ -f "$src/patch.diff" ] && [ -f "$src/meta.json" ] || { echo "missing patch.diff/meta.json in $src"; exit 3; }
-wt=/tmp/seedcheck/$id; rm -rf "$wt"; mkdir -p /tmp/seedcheck
+wt=/tmp/seedcheck/$dest; rm -rf "$wt"; mkdir -p /tmp/seedcheck
 git -C /repo worktree prune
 git -C /repo worktree add -q --detach "$wt" HEAD || exit 3
 demo_path=$(jq -r .demo_path "$src/meta.json"); demo_cmd=$(jq -r .demo_cmd "$src/meta.json")
@@ -33,7 +33,7 @@ case " $firing " in *" $id "*) det=true;; *) det=false;; esac
 jq -n --arg id "$id" --arg firing "$firing" --argjson det $det --arg pkgs "$pkgs" \
   '{status:"verified", property:$id, demo_on_unchanged_tree:"pass", demo_with_patch:"fail", existing_tests:("pass: go test "+$pkgs), detected_by_own_check:$det, checks_firing:$firing}' > "$res"
 git -C /repo worktree remove --force "$wt"
-mkdir -p "$here/seeded/$id"
-cp "$src/patch.diff" "$src/meta.json" "$src/$demo_file" "$res" "$here/seeded/$id/"
-grep -A6 "^VIOLATION property=$id" "$src/vsa.txt" | cut -c1-400 > "$here/seeded/$id/check_output.txt"
+mkdir -p "$here/seeded/$dest"
+cp "$src/patch.diff" "$src/meta.json" "$src/$demo_file" "$res" "$here/seeded/$dest/"
+grep -A6 "^VIOLATION property=$id" "$src/vsa.txt" | cut -c1-400 > "$here/seeded/$dest/check_output.txt"
 echo "SEEDCHECK $id: verified; detected_by_own_check=$det; firing: $firing"
